@@ -64,7 +64,7 @@ theorem incoming_runsEq (c : Cfg) {rs rs' : List Run} (h : RunsEq rs rs') (x : E
 theorem eqv_runsEq (c : Cfg) {x y : Engine} (hr : RunsEq x.runs y.runs) (h1 : x.segs = y.segs)
     (h2 : x.store = y.store) (h3 : x.propsRoot = y.propsRoot) (hm : IdEq x.idmap y.idmap)
     (hi : x.interner = y.interner) (hv : x.vecs = y.vecs) : Eqv c x y := by
-  refine ⟨hm, hi, hv, fun n => RunEq.isTombNode hr n, ?_, ?_, ?_, ?_, ?_⟩
+  refine ⟨hm, hi, hv, fun n => RunEq.isTombNode hr n, ?_, ?_, ?_, ?_⟩
   · intro n rel
     have := neighbors_runsEq hr x n rel
     have e1 : ({ x with runs := x.runs } : Engine).neighbors n rel = x.neighbors n rel := rfl
@@ -79,6 +79,5 @@ theorem eqv_runsEq (c : Cfg) {x y : Engine} (hr : RunsEq x.runs y.runs) (h1 : x.
     rw [e1, e2] at this; exact this
   · intro n k; unfold Engine.nodeProp; rw [RunEq.npropRuns hr, h2, h3]
   · intro e k; unfold Engine.edgeProp; rw [RunEq.epropRuns hr, h2, h3]
-  · intro n k; rw [nodeProps_lookup, nodeProps_lookup, RunEq.npropRuns hr, h2, h3]
 
 end Nervus.Storage
